@@ -218,6 +218,92 @@ fn zeroing_case<C: CellType>(seq: &[Instr<C>], t: &mut Tally, budget: usize) {
     }
 }
 
+/// dead_store_elim on `seq` (use counts of the temporaries as emit_block records them): the cells and
+/// the output are the same from every start state (temporaries are not observable)
+fn dse_case<C: CellType>(seq: &[Instr<C>], t: &mut Tally) {
+    let mut cg = fresh_codegen(seq.to_vec());
+    let mut uses = [0usize; 16];
+    for i in seq {
+        let srcs: Vec<Loc<C>> = match *i {
+            Instr::Add(_, a, b) | Instr::Sub(_, a, b) | Instr::Mul(_, a, b) => vec![a, b],
+            Instr::Copy(_, a) => vec![a],
+            _ => vec![],
+        };
+        for s in srcs {
+            if let Loc::Tmp(k) = s {
+                uses[k] += 1;
+            }
+        }
+    }
+    for k in 0..16 {
+        cg.ranges.push(RangeInfo { created: 0, first_use: None, last_use: None, num_uses: uses[k] });
+    }
+    cg.dead_store_elim();
+    let after = cg.insts;
+    let mut shape_ok = after.len() == seq.len();
+    if shape_ok {
+        for (a, b) in seq.iter().zip(after.iter()) {
+            shape_ok = shape_ok && (a == b || (*b == Instr::Noop && !matches!(a, Instr::Out(_) | Instr::Inp(_) | Instr::BrZ(..) | Instr::BrNZ(..) | Instr::Mov(_) | Instr::Scan(..))));
+        }
+    }
+    t.check(shape_ok, || format!("dead_store_elim rewrote {:?} into {:?}", seq, after));
+    if after.as_slice() != seq {
+        t.nontrivial += 1;
+    }
+    for init in start_states::<C>() {
+        let mut s0 = St::new(&[C::ZERO, C::ZERO, init[0], init[1]], 16);
+        s0.temps[2] = C::from_u8(9);
+        s0.temps[3] = C::from_u8(4);
+        let mut s1 = s0.clone();
+        let r0 = run_bc(seq, &mut s0, 60);
+        let r1 = run_bc(&after, &mut s1, 60);
+        if r0.is_none() {
+            t.skipped += 1;
+            continue;
+        }
+        s1.temps = s0.temps.clone();
+        t.check(r1.is_some() && s0 == s1, || format!("dead_store_elim: {:?} became {:?}: differs from cells [0]={:?} [1]={:?}", seq, after, init[0], init[1]));
+    }
+}
+
+fn dse_alphabet<C: CellType>() -> Vec<Instr<C>> {
+    let dsts = [Loc::Mem(0), Loc::Mem(1), Loc::Tmp(2), Loc::Tmp(3)];
+    let srcs = [Loc::Mem(0), Loc::Mem(1), Loc::Tmp(2), Loc::Imm(C::from_u8(3))];
+    let mut a = Vec::new();
+    for d in dsts {
+        for x in srcs {
+            a.push(Instr::Copy(d, x));
+            for y in srcs {
+                a.push(Instr::Add(d, x, y));
+            }
+        }
+    }
+    a.push(Instr::Out(0));
+    a.push(Instr::Inp(1));
+    a.push(Instr::Copy(Loc::Mem(0), Loc::Tmp(3)));
+    a
+}
+
+#[test]
+fn verif_n2_dse() {
+    let mut t = Tally::new();
+    let al = dse_alphabet::<u8>();
+    for a in &al {
+        dse_case(&[*a], &mut t);
+        for b in &al {
+            dse_case(&[*a, *b], &mut t);
+            for c in &al {
+                dse_case(&[*a, *b, *c], &mut t);
+            }
+            // a dead store must not be removed across a branch, a branch target, a move or a scan
+            dse_case(&[*a, Instr::BrZ(1, 2), *b, Instr::Out(0)], &mut t);
+            dse_case(&[*a, Instr::Mov(1), *b, Instr::Mov(-1), Instr::Out(0)], &mut t);
+            dse_case(&[Instr::BrZ(1, 2), *a, *b, Instr::Out(0), Instr::Out(1)], &mut t);
+        }
+    }
+    t.report("dead_store_seq");
+}
+
 fn alphabet<C: CellType>(small: bool) -> Vec<Instr<C>> {
     let dsts = [Loc::Mem(0), Loc::Mem(1), Loc::Tmp(2)];
     let srcs = [Loc::Mem(0), Loc::Mem(1), Loc::Imm(C::ZERO), Loc::Imm(C::from_u8(3))];
